@@ -915,13 +915,12 @@ theorem C14_partial (S : Schema) (a : Alloc σ) (ha : a.Valid) (ops : List Op)
   (C14_model_eq_spec Quirks.original S a ha ops
     ⟨Or.inr (C14_no_reuse_no_stale Quirks.original S a ha ops h1), Or.inr h2⟩).2
 
-/-- **C14_current.** The code as it is now (the `remove_node` repair applied, commit c18b52a; dead ends still raise,
-finding F-C14-2): for every history in which the transitive inference meets no dead, unswept instance, relations among
-live instances and field contents are those of the specification — whatever node indices and ids were recycled. -/
-theorem C14_current (S : Schema) (a : Alloc σ) (ha : a.Valid) (ops : List Op)
-    (h : (run Quirks.asIs S a ops).deadHit = false) :
+/-- **C14_current.** The code as it is now (the `remove_node` repair, commit c18b52a, and the repair of F-C14-2 applied:
+the transitive inference leaves out dead, unswept neighbours): for EVERY history, relations among live instances and
+field contents are those of the specification — whatever node indices and ids were recycled, whatever died unswept. -/
+theorem C14_current (S : Schema) (a : Alloc σ) (ha : a.Valid) (ops : List Op) :
     (run Quirks.asIs S a ops).relObs = (specRun Quirks.asIs S ops).relObs :=
-  (C14_model_eq_spec Quirks.asIs S a ha ops ⟨Or.inl rfl, Or.inr h⟩).2
+  (C14_model_eq_spec Quirks.asIs S a ha ops ⟨Or.inl rfl, Or.inl rfl⟩).2
 
 /-- **C14_partial_precise.** … and more precisely: on every history in which no existence check was answered by a
 stale entry, even if indices were recycled. -/
@@ -1556,19 +1555,21 @@ theorem C14_cex_recycled :
   refine ⟨by decide, by decide, by decide, by decide, by decide⟩
 
 open KrroodVerif.Drive.SG in
-/-- **C14_cex_dead_source** (test = finding F-C14-2): `a.sub_of.append(b)`, `a` is dropped and collected but not yet
-swept, then `b.sub_of.append(c)` raises (the transitive inference reaches the dead `a`); after a sweep, or with
-dead ends skipped, the assertion records `b → c` as on a fresh graph. -/
+/-- **C14_cex_dead_source** (test = finding F-C14-2, repaired): `a.sub_of.append(b)`, `a` is dropped and collected but
+not yet swept, then `b.sub_of.append(c)` raised in the tree before the repair (`Quirks.original`, and the quirk alone on
+top of the code as it is: the transitive inference reaches the dead `a`); after a sweep, or with dead ends skipped — the
+code as it is now, `Quirks.asIs` — the assertion records `b → c` as on a fresh graph. -/
 theorem C14_cex_dead_source :
     let ops := [Op.new 0 1 0, .new 1 1 1, .new 2 1 2, .set 3 0 1, .drop 0, .set 3 1 2]
     let swept := [Op.new 0 1 0, .new 1 1 1, .new 2 1 2, .set 3 0 1, .drop 0, .sweep, .set 3 1 2]
     (run Quirks.original schema lifo ops).deadHit = true ∧ (run Quirks.original schema lifo ops).relObs = none ∧
-    (run Quirks.asIs schema lifo ops).relObs = none ∧
+    (run { Quirks.asIs with deadEndpointRaises := true } schema lifo ops).relObs = none ∧
+    (run Quirks.asIs schema lifo ops).relObs = some ([(3, 1, 2)], [(1, 3, 2)]) ∧
     (run Quirks.original schema lifo swept).relObs = some ([(3, 1, 2)], [(1, 3, 2)]) ∧
     (run Quirks.none schema lifo ops).relObs = some ([(3, 1, 2)], [(1, 3, 2)]) ∧
     (specRun Quirks.original schema ops).relObs = some ([(3, 1, 2)], [(1, 3, 2)]) := by
   dsimp only
-  refine ⟨by decide, by decide, by decide, by decide, by decide, by decide⟩
+  refine ⟨by decide, by decide, by decide, by decide, by decide, by decide, by decide⟩
 
 open KrroodVerif.Drive.SG in
 /-- non-vacuity of `C14_fresh_equiv`: a prefix with relations, inferences and recycling is garbage; the suffix uses
